@@ -63,7 +63,7 @@ impl Prop for C10 {
          70% of runs use the actor-segmented policy (A runs j ops, then B runs l ops or to its end, then A, then B — j and l drawn over the whole op sequence), the rest random/PCT/starve policies; \
          the prune is non-instant with keep-delete far above the simulated duration of the overlap; overlapping sources share content so the late backup re-uses blobs from packs the prune marks. \
          Oracles: at every prefix of the combined mutation log that removes a pack or publishes a snapshot, every blob referenced by a visible snapshot is physically present in a stored pack; \
-         both commands finish (bounded liveness); after a further prune (still inside keep-delete) check(read_data) is clean and every snapshot reads back equal to its model (backup||backup: without that prune); \
+         both commands finish (bounded liveness); after a further prune (still inside keep-delete; in a third of the runs skipped, so that the next prune runs only after the marks expired) check(read_data) is clean and every snapshot reads back equal to its model (backup||backup: without that prune); \
          the same after the clock passed keep-delete and another prune ran. evaluations = prefix audits + end oracles; non-trivial = the two actors' ops actually interleaved; distinct = hash(kind, model, trace)"
     }
     fn assumptions(&self) -> Vec<&'static str> {
@@ -293,7 +293,13 @@ impl Prop for C10 {
         }
 
         // ---------- end oracles
-        if rep.violations.is_empty() {
+        // in a third of the runs the next prune comes only after the marks have expired: it must still bring
+        // back what the late backup re-used, not delete it
+        let late_first = s.kind != "backup-backup" && rng.chance(1, 3);
+        if late_first {
+            rep.fire("next_prune_only_after_keep_delete_expired", 1);
+        }
+        if rep.violations.is_empty() && !late_first {
             if s.kind != "backup-backup" {
                 // still inside keep-delete: a further prune brings back what the late backup re-used
                 if let r @ (Cmd::Err(_) | Cmd::Panic(_) | Cmd::NoProgress | Cmd::Harness(_)) = sim.prune(&Mode::Free, 3, &prune_opts(s.repack, keep_delete_s)) {
